@@ -171,6 +171,7 @@ type wenv struct {
 	portNext int
 	execs    int
 	dirty    int // executions since the last sweep of this worker's trace files
+	guard    int // executions since start (descriptor guard)
 }
 
 func (e *wenv) port() int {
